@@ -124,7 +124,7 @@ def streams(tier, rng):
     # 1. every fragmentation (all 2^(n-1) cut sets), parse after every append
     layouts = [([7, 9], IDS1), ([16], IDS1), ([8, 8], IDS3), ([-1, 7, 8], IDS1), ([7, -2, 7], IDS3), ([7, 7, -2], IDS1),
                ([-3, 13], IDS3), ([9, -7], IDS1), ([7], IDS1), ([-5], IDS1), ([7, 7], IDS3), ([-2, 7, -1], IDS1)]
-    cases = []
+    cases, sampled = [], []
     for k, (segs, ids) in enumerate(layouts):
         st = make_stream(rng, ids, segs)
         n = len(st)
@@ -133,8 +133,10 @@ def streams(tier, rng):
             if not full and m % 8 != 0 and m < (1 << (n - 1)) - 64:
                 continue
             cuts = [i + 1 for i in range(n - 1) if m >> i & 1]
-            cases.append(hist(ids, segs, chunks_of(st, cuts), final_parses=0))
+            (cases if full else sampled).append(hist(ids, segs, chunks_of(st, cuts), final_parses=0))
     yield "exh_fragmentations_len_le16", "exact", cases
+    if sampled:     # quick tier: the longer layouts are enumerated completely only in the thorough tier
+        yield "sampled_fragmentations_len_13_16", "exact", sampled
     # 1b. every fragmentation x every subset of parse points, short streams
     cases = []
     for segs, ids in [([7], IDS1), ([8], IDS3), ([-1, 7], IDS1), ([7, -1], IDS1)] + ([([9], IDS1), ([-2, 7], IDS3)] if big else []):
